@@ -55,7 +55,7 @@ theorem kept_nodup (input order : List Word) (wl : WordList) (d : Nat)
 /-- `Size()` is the number of words kept, and the notice reports the number dropped. -/
 theorem size_eq (input order : List Word) (wl : WordList) (d : Nat)
     (h : newWordListOrd title input order = some (wl, d)) :
-    (WLRecipe.size { list := some wl, length := 1, sep := .char [], capitalize := "" }) = wl.words.length ∧
+    (WLRecipe.size { list := some wl, length := 1, sepChar := [], capitalize := "" }) = wl.words.length ∧
     d = input.length - wl.words.length :=
   ⟨rfl, (words_eq title input order wl d h).2⟩
 
